@@ -31,6 +31,12 @@ header, the owner name, itself, its neighbour, the end, past the end) at every
 position of a valid one-record message of every record type.  The thorough
 tier adds pairs of mutations, wider alphabets, long pointer chains and a
 coverage-guided mutation loop (line arcs of twisted/names/dns.py).
+
+TcpSegmentedDelivery delivers the length-prefixed frame to DNSProtocol in
+pieces.  On the tree this was written against it fails: a piece boundary that
+leaves exactly one byte of a length prefix buffered makes dataReceived compare
+len(buffer) with self.length == None and raise TypeError before any decoding
+(failing region: 1 in cuts, or len(first frame) + 1 in cuts).
 """
 import itertools
 import signal
